@@ -45,6 +45,7 @@ def run(chk, repo):
     chk.rule("C17-M5", "strptime formats fit the field shapes", 2)
     chk.attempt(m1, chk, repo)
     chk.attempt(m2, chk, repo)
+    chk.attempt(m6, chk, repo)
     chk.attempt(m3, chk, repo)
     chk.attempt(m5, chk, repo)
     from .common_rules import stateless_constructs
@@ -163,6 +164,8 @@ def m2(chk, repo):
             if d is None:
                 raise AnalysisError(f"{pipe}: variable {k} not found by shape inference; its stored resolution is not decided")
             seen += 1
+            if "TOP(" in d:
+                raise AnalysisError(f"{pipe}: the conversion chain of {k} is not determined by shape inference ({d[d.find('data='):][:120]}); its stored resolution is not decided")
             units = re.findall(r"(?:datetime64|timedelta64)\[(\w+)\]", d)
             conv = re.findall(r"\|(?:np\.)?(?:array|asarray|astype)\[([^\]\[]*(?:\[\w+\])?)\]", d)
             ok = bool(units) and units[-1] == "ns" and all(u in ("ns",) for u in units)
@@ -235,6 +238,15 @@ def m3(chk, repo):
             and [p.offset - comp.offset for p in parts] == [0, 4, 8]
         chk.require(ok, "C17-M4", f"{key}_data_record.sensor_acquisition_date", "DatetimeYdms(Struct(year, day_of_year, milliseconds)) as Int32ub at +0, +4, +8",
                     f"acquisition date layout is {[repr(p) for p in parts]}", key=f"{key}:ydms-layout")
+    # the text / integer fields that hold timestamps in the leader and the volume directory sit where the format puts them, with
+    # their full width (a time text cut short loses its last fraction digits)
+    from ..reference import compare
+    TIME_FIELDS = {"leader": ("dataset_summary.scene_center_time", "platform_position.datetime_of_first_point.date", "platform_position.datetime_of_first_point.day_of_year",
+                              "platform_position.datetime_of_first_point.seconds_of_day", "platform_position.time_interval_between_data_points",
+                              "attitude.data_points[].time.day_of_year", "attitude.data_points[].time.millisecond_of_day"),
+                   "volume": ("volume_descriptor.logical_volume_creation_datetime",)}
+    for key, fields in TIME_FIELDS.items():
+        compare(chk, "C17-M4", L, key, select=lambda p_, fields=fields: p_ in fields)
     # DatetimeYdms normal form: 1 January of the year + (day-1) days + milliseconds
     cls = dt.classes.get("DatetimeYdms")
     dec = [s for s in cls.body if isinstance(s, ast.FunctionDef) and s.name == "_decode"][0]
@@ -248,6 +260,42 @@ def m3(chk, repo):
         raise AnalysisError(f"DatetimeYdms._decode has a different shape than its specification: {show_paths(got)[:200]}")
     chk.require(v == "equal", "C17-M4", f"{dt.relpath}:DatetimeYdms._decode", "1 January of obj['year'] + (day_of_year - 1) days + obj['milliseconds'] ms",
                 f"DatetimeYdms no longer builds 1 January of the year plus (day_of_year - 1) days plus the millisecond field: {show_paths(got)[:200]}", key="ydms:decode")
+
+
+LOCAL_TIME_APIS = {"timestamp": "datetime.timestamp() reads a naive datetime in the process's local time zone", "mktime": "time.mktime interprets its argument in local time",
+                   "localtime": "time.localtime converts to local time", "fromtimestamp": "datetime.fromtimestamp without tz= returns local time", "astimezone": "astimezone() on a naive datetime assumes local time",
+                   "today": "date/datetime.today() depends on the clock and the local zone", "now": "datetime.now() depends on the clock"}
+
+
+def m6(chk, repo):
+    """no time conversion of the package goes through an API whose result depends on the time zone (or clock) of the reading
+    process: the timestamps of a file must read back the same everywhere"""
+    chk.rule("C17-M6", "no conversion on a time path uses a local-time dependent API (datetime.timestamp on naive values, fromtimestamp without tz, mktime, localtime, now/today)", 0)
+    n = 0
+    for fi in repo.all_funcs():
+        if fi.module.name.endswith(".testing") or fi.module.name.endswith(".cli"):
+            continue
+        for c in calls_in(fi):
+            if not isinstance(c.func, ast.Attribute) or c.func.attr not in LOCAL_TIME_APIS:
+                continue
+            a = c.func.attr
+            if a == "fromtimestamp" and (len(c.args) > 1 or any(k.arg == "tz" for k in c.keywords)):
+                continue
+            if a == "astimezone" and (c.args or c.keywords):
+                continue
+            if a in ("now", "today") and (c.args or c.keywords):
+                continue
+            if a in ("now", "today", "timestamp", "fromtimestamp", "mktime", "localtime", "astimezone"):
+                recv = norm(c.func.value)
+                if a in ("now", "today", "fromtimestamp") and not any(x in recv for x in ("datetime", "date")):
+                    continue
+                if a in ("mktime", "localtime") and "time" not in recv:
+                    continue
+                n += 1
+                chk.fail("C17-M6", f"{fi.module.relpath}:{fi.qualname}", f"{short(c, 50)}: {LOCAL_TIME_APIS[a]} - the same file yields different timestamps under another TZ setting, "
+                                                                          f"so times of different records no longer agree", key=f"{fi.key}:{a}")
+    if n == 0:
+        chk.ok("C17-M6", "package", f"no local-time dependent conversion in {len(list(repo.all_funcs()))} functions")
 
 
 def strptime_width(fmt):
@@ -268,6 +316,53 @@ def strptime_width(fmt):
 
 
 def m5(chk, repo):
+    """the two text-to-timestamp conversions evaluated (constant folding; strptime / timedelta folded by the standard library)
+    on representative stamps: every fraction digit pattern of the 16- and 17-character compact stamps, date texts with one-
+    and two-digit fields, seconds of day with and without fraction.  Oracle: the fields of the stamp, read positionally."""
+    import datetime
+    from ..shapes import Const, DictS, Interp, ShapeError, _Raise
+    tr = repo.module("ceos_alos2.transformers")
+    pp = repo.module("ceos_alos2.sar_leader.platform_position")
+    I = Interp(repo)
+    try:
+        nd = I.resolve_global(tr, "normalize_datetime")
+        cases = []
+        for frac in ("00", "05", "50", "99", "07", "10", "123", "005", "050", "999", "120", "001"):
+            for base in ("20140102030405", "20200229235959", "20491231000000"):
+                cases.append(base + frac)
+        bad = None
+        for stamp in cases:
+            y, mo, d, h, mi, sec = int(stamp[:4]), int(stamp[4:6]), int(stamp[6:8]), int(stamp[8:10]), int(stamp[10:12]), int(stamp[12:14])
+            want = datetime.datetime(y, mo, d, h, mi, sec, int(stamp[14:].ljust(6, "0"))).isoformat()
+            try:
+                got = I.call(nd, [Const(stamp)], {})
+            except _Raise as e:
+                got = Const(f"<raises {e.what[:50]}>")
+            if not (isinstance(got, Const) and got.v == want) and bad is None:
+                bad = (stamp, got.v if isinstance(got, Const) else repr(got), want)
+        chk.require(bad is None, "C17-M5", f"{tr.relpath}:normalize_datetime", f"{len(cases)} compact stamps (16 characters with hundredths, 17 with milliseconds) read back field by field, fraction kept as written",
+                    f"normalize_datetime({bad[0]!r}) gives {bad[1]!r}, the stamp says {bad[2]!r}: the sub-second part is not kept at its stored resolution" if bad else "", key="normalize_datetime:format",
+                    sample={"stamps": len(cases)})
+        cd = I.resolve_global(pp, "transform_composite_datetime")
+        bad = None
+        comp = [("2020 02 29", 0.0), ("2014  1  2", 86399.999), ("2049 12 31", 43200.123456), ("2016 12 31", 3661.5), ("2018 7 26", 1.0e-3), ("2030 10 05", 59.25)]
+        for date_text, secs in comp:
+            yy, mm, dd = (int(x) for x in date_text.split())
+            want = (datetime.datetime(yy, mm, dd) + datetime.timedelta(seconds=secs)).isoformat()
+            try:
+                got = I.call(cd, [DictS({"date": Const(date_text), "seconds_of_day": Const(secs)})], {})
+            except _Raise as e:
+                got = Const(f"<raises {e.what[:50]}>")
+            if not (isinstance(got, Const) and got.v == want) and bad is None:
+                bad = (date_text, secs, got.v if isinstance(got, Const) else repr(got), want)
+        chk.require(bad is None, "C17-M5", f"{pp.relpath}:transform_composite_datetime", f"{len(comp)} (date text, seconds of day) pairs give date + seconds, fraction kept",
+                    f"transform_composite_datetime(date={bad[0]!r}, seconds_of_day={bad[1]}) gives {bad[2]!r}, the record says {bad[3]!r}" if bad else "", key="composite_datetime:format")
+    except ShapeError as e:
+        chk.note(f"C17-M5: the conversions cannot be evaluated on representative stamps ({str(e)[:100]}); decided on their syntactic form")
+        return m5_syntactic(chk, repo)
+
+
+def m5_syntactic(chk, repo):
     tr = repo.module("ceos_alos2.transformers")
     nd = tr.func("normalize_datetime")
     fmt = None
